@@ -144,7 +144,8 @@ def write_roms(path, G, times, U, V, extra=None, storage="f8", write_vtransform=
         tv = nc.createVariable("ocean_time", time_dtype, ("ocean_time",))
         tv.units = units
         ref = np.datetime64(units.split("since")[1].strip().replace(" ", "T"), "s")
-        tvals = np.array([(np.datetime64(t, "s") - ref) / np.timedelta64(1, "s") for t in times])
+        per = {"seconds": 1.0, "minutes": 60.0, "hours": 3600.0, "days": 86400.0}[units.split()[0]]
+        tvals = np.array([((np.datetime64(t, "s") - ref) / np.timedelta64(1, "s")) / per for t in times])
         if len(tvals):
             tv[:] = tvals
 
